@@ -36,7 +36,7 @@ func fsCall(in ssa.Instruction) string {
 }
 
 func checkC17(c *core.Ctx, l *core.Ledger) {
-	l.Explanation = "Static clauses of C17: (FS-OWN) among all functions reachable from the CLI's main in the gated call graph, file-system mutating calls (os.WriteFile/MkdirAll/Create/OpenFile/Rename/Remove/...) occur only in gen.Generate; (WRITE-LAST) inside gen.Generate no call into the repository (module generation, Walk, the plugin's Generate, mergeFiles/addFile) is reachable after the first file-system call, so every fallible producing step precedes every write; (CONFINE) the written path is filepath.Join(o.OutputDir, key of the files map), the created directory is filepath.Dir of that same path, and OutputDir is tested with filepath.IsAbs on entry; (CONFLICT) every insertion into the files map happens in addFile under the negative edge of a presence test that returns an error, and the plugin fan-out inserts into its merged map only under the same test while holding its lock; (DOTDOT) the plugin wrapper returns success only after the loop that rejects any returned path containing \"..\", and the CLI verifies ancestry of includes on the explicit-root branch. (PATH-PREFIX) containment between two paths is never decided by a string prefix test (svc vs svc-common). NOT decided: the value of module paths relative to the root for concrete layouts (filepath.Rel semantics), the --output-file option (user-supplied), atomicity of the write loop itself (a failing write after earlier writes succeeded)."
+	l.Explanation = "Static clauses of C17: (FS-OWN) among all functions reachable from the CLI's main in the gated call graph, file-system mutating calls (os.WriteFile/MkdirAll/Create/OpenFile/Rename/Remove/...) occur only in gen.Generate; (WRITE-LAST) inside gen.Generate no call into the repository (module generation, Walk, the plugin's Generate, mergeFiles/addFile) is reachable after the first file-system call, so every fallible producing step precedes every write; (CONFINE) the written path is filepath.Join(o.OutputDir, key of the files map), the created directory is filepath.Dir of that same path, and OutputDir is tested with filepath.IsAbs on entry; (CONFLICT) every insertion into the files map happens in addFile under the negative edge of a presence test that returns an error, and the plugin fan-out inserts into its merged map only under the same test while holding its lock; (DOTDOT) the plugin wrapper returns success only after the loop that rejects any returned path containing \"..\", and the CLI verifies ancestry of includes on the explicit-root branch. (PATH-PREFIX) containment between two paths is never decided by a string prefix test (svc vs svc-common). (ERR-KEEP) no error value is lost: none is assigned to a variable that is never read (an inner declaration shadowing the checked one), none is overwritten by the next loop iteration unseen, and no deferred function replaces the error result without regard to the error already there. NOT decided: the value of module paths relative to the root for concrete layouts (filepath.Rel semantics), the --output-file option (user-supplied), atomicity of the write loop itself (a failing write after earlier writes succeeded)."
 	l.RuleText = "one obligation per file-system call site / insertion site / return"
 	l.Assumptions = []string{"filepath.Join cleans its result; a relative path without \"..\" joined to a directory stays beneath it"}
 
@@ -382,6 +382,7 @@ func checkC17(c *core.Ctx, l *core.Ledger) {
 		l.Check(ok && len(callsIn(f, "Walk")) == 1, "DOTDOT", "main.verifyAncestry", c.Rel(f.Pos()), "every module's path relative to the root is rejected when it starts with \"..\"", "verifyAncestry does not reject modules outside the root")
 	}
 	l.Floor("DOTDOT", 3)
+	checkErrKeep(c, l, "ERR-KEEP", []string{"gen", "", "internal/plugin"})
 	checkPathPrefix(c, l)
 }
 
